@@ -2,6 +2,17 @@
 PY = "/venv/bin/python"
 
 REGISTRY = {
+    "C18": {
+        "modules": ["units"],
+        "level": "proof",
+        "level_text": "units.convert is verified against the recursive spec from_root(target, to_root(source, v)) for chains of any depth (three loop invariants); identity, round trip, path independence and "
+                      "additivity are lemmas over the spec by induction on the depth; the four built-in units' lambdas are read from the source and proved mutually inverse/linear with the "
+                      "statement's constants (100, 0.3048, 12); the sonar drivers and the pressure sensor have straight-line postconditions with the statement's constants, plus the calibration lemma.",
+        "level_note": "Floats are reals; termination/acyclicity assumed; user-defined units are assumed mutually inverse (checked for the built-ins); wpilib readings are arbitrary reals.",
+        "design_ref": "DESIGN.md section 5 C18",
+        "replay": [PY, "native/replay_c18.py"],
+        "standins": {"quick": {"bounded: real convert / sonar / pressure on a value grid with user-defined unit chains, relative tolerance 1e-9": [PY, "native/replay_c18.py"]}},
+    },
     "C08": {
         "modules": ["inject"],
         "level": "proof",
